@@ -584,3 +584,297 @@ Proof.
   intros s h s' H. unfold tcp_set_hop_limit in H.
   destruct h as [[|?|?]|]; inversion H; subst; core_triv.
 Qed.
+
+(* ------------------------------------------------------------------------------------------ *)
+(* preservation: tcp_process, phase by phase                                                    *)
+(* ------------------------------------------------------------------------------------------ *)
+Lemma ack_reply_core : forall cx s ip r, core_eq s (fst (tcp_ack_reply cx s ip r)).
+Proof.
+  intros. unfold tcp_ack_reply. destruct (tcp_reply ip r) as (ip', reply). cbn [fst]. core_triv.
+Qed.
+
+Lemma challenge_ack_core : forall cx s ip r, core_eq s (fst (tcp_challenge_ack_reply cx s ip r)).
+Proof.
+  intros. unfold tcp_challenge_ack_reply.
+  destruct (cx_now cx <? s_challenge_ack_timer s); [apply core_eq_refl|].
+  pose proof (ack_reply_core cx (upd_challenge_ack_timer s (cx_now cx + 1000000)) ip r) as H.
+  destruct (tcp_ack_reply cx (upd_challenge_ack_timer s (cx_now cx + 1000000)) ip r) as (s1, p).
+  cbn [fst] in *. eapply core_eq_trans; [|exact H]. core_triv.
+Qed.
+
+(* the acknowledgement of a segment that passed the ACK check is not behind SND.UNA *)
+Lemma ack_not_behind : forall a una b, u32 a -> u32 una -> 0 <= b <= 1 ->
+  seq_lt a (seq_add una b) = false -> a = una \/ seq_lt una a = true.
+Proof.
+  intros a una b Ha Hu Hb. sequ.
+  destruct (Z.ltb_spec ((a - (una + b) mod 4294967296) mod 4294967296) 2147483648);
+  destruct (Z.ltb_spec ((una - a) mod 4294967296) 2147483648); lia.
+Qed.
+
+Lemma b2z_range : forall b, 0 <= b2z b <= 1.
+Proof. intros []; cbn; lia. Qed.
+
+Lemma ack_check_fresh : forall cx s ip r tg,
+  tcp_process_ack_check cx s ip r = Ok (Cont tg tt) ->
+  u32 (s_local_seq_no s) -> seg_ok r -> r_control r <> CRst ->
+  (s_state s = Listen -> r_ack_number r = None) /\
+  (s_state s = SynSent -> r_control r = CSyn) /\
+  (forall a, r_ack_number r = Some a -> a = s_local_seq_no s \/ seq_lt (s_local_seq_no s) a = true) /\
+  (s_state s <> Listen -> s_state s <> SynSent -> r_ack_number r <> None).
+Proof.
+  intros cx s ip r tg H Hu (_ & Hack & _) Hc. unfold tcp_process_ack_check in H.
+  assert (Hsucc : seq_add (s_local_seq_no s) 1 = s_local_seq_no s \/
+                  seq_lt (s_local_seq_no s) (seq_add (s_local_seq_no s) 1) = true)
+    by (right; apply seq_lt_succ).
+  destruct (s_state s) eqn:Hst; destruct (r_control r) eqn:Hctl; try congruence;
+    destruct (r_ack_number r) as [a|] eqn:Ha; try discriminate;
+    repeat match type of H with
+           | context [if ?b then _ else _] => destruct b eqn:?
+           | (do _ <- ?m; _) = _ => destruct m; cbn [obind] in H
+           | (let '(_, _) := ?m in _) = _ => destruct m
+           end; try discriminate;
+    (split; [congruence|]); (split; [congruence|]); (split; [|congruence]);
+    intros a' Ea; inversion Ea; subst a'; clear Ea;
+    try (match goal with E : (_ =? _) = true |- _ => apply Z.eqb_eq in E; subst a end; exact Hsucc);
+    try (match goal with E : negb (_ =? _) = false |- _ =>
+           apply negb_false_iff, Z.eqb_eq in E; subst a end; exact Hsucc);
+    try (eapply ack_not_behind; [exact Hack | exact Hu | apply b2z_range | eassumption]).
+Qed.
+
+(* window phase: the continuing socket differs only in local_rx_last_seq; a returning one is the
+   same connection (the TIME-WAIT timer may be restarted, ACK bookkeeping updated) *)
+Lemma upd_close_timer_inv : forall s now,
+  s_state s = TimeWait -> tcp_live_inv s -> tcp_live_inv (upd_timer s (timer_set_for_close now)).
+Proof.
+  intros s now Hst I. inv_destruct I.
+  constructor; unfold live_K in *; sproj; auto. rewrite Hst. cbn. discriminate.
+Qed.
+
+Lemma process_window_spec : forall cx s ip r p2,
+  tcp_process_window cx s ip r = Ok p2 -> tcp_live_inv s ->
+  match p2 with
+  | Cont _ (s2, _, _) => core_eq s s2
+  | Ret _ s' _ => tcp_live_inv s'
+  end.
+Proof.
+  intros cx s ip r p2 H I. unfold tcp_process_window in H.
+  assert (Hmain :
+    (let '(in_window, tg) := tcp_segment_in_window (tcp_window_start s) (tcp_window_end s)
+                               (r_seq_number r) (seq_add (r_seq_number r) (l_len (r_payload r))) in
+      if in_window then
+        let overlap_start := seq_max (tcp_window_start s) (r_seq_number r) in
+        let overlap_end := seq_min (tcp_window_end s) (seq_add (r_seq_number r) (l_len (r_payload r))) in
+        if negb (seq_le overlap_start overlap_end) then Panic else
+        let s := upd_local_rx_last_seq s (Some (r_seq_number r)) in
+        do a <- seq_sub overlap_start (r_seq_number r);
+        do b <- seq_sub overlap_end (r_seq_number r);
+        do payload <- slice_range (r_payload r) a b;
+        do off <- seq_sub overlap_start (tcp_window_start s);
+        Ok (Cont tg (s, payload, off))
+      else if control_eqb (r_control r) CRst then Ok (Ret (tg + 1000) s None)
+      else
+        let s := if tcp_state_eqb (s_state s) TimeWait
+                 then upd_timer s (timer_set_for_close (cx_now cx)) else s in
+        if (match r_payload r with [] => false | _ => true end)
+           && (match r_control r with CNone | CPsh | CFin => true | _ => false end)
+        then let '(s', p) := tcp_ack_reply cx s ip r in Ok (Ret (tg + 2000) s' (Some p))
+        else let '(s', p) := tcp_challenge_ack_reply cx s ip r in Ok (Ret (tg + 3000) s' p)) = Ok p2 ->
+    match p2 with
+    | Cont _ (s2, _, _) => core_eq s s2
+    | Ret _ s' _ => tcp_live_inv s'
+    end).
+  { clear H. intros H. cbv zeta in H.
+    destruct (tcp_segment_in_window _ _ _ _) as (inw, tg).
+    destruct inw.
+    - destruct (negb (seq_le _ _)); [discriminate|].
+      obind_inv H. obind_inv H. obind_inv H. obind_inv H. inversion H; subst p2. core_triv.
+    - destruct (control_eqb (r_control r) CRst); [inversion H; subst p2; exact I|].
+      set (q := if tcp_state_eqb (s_state s) TimeWait
+                then upd_timer s (timer_set_for_close (cx_now cx)) else s) in *.
+      assert (Iq : tcp_live_inv q).
+      { unfold q. destruct (tcp_state_eqb (s_state s) TimeWait) eqn:E; [|exact I].
+        apply upd_close_timer_inv; [apply tcp_state_eqb_true; exact E | exact I]. }
+      clearbody q.
+      destruct ((match r_payload r with [] => false | _ => true end)
+                && (match r_control r with CNone | CPsh | CFin => true | _ => false end)).
+      + pose proof (ack_reply_core cx q ip r) as C. destruct (tcp_ack_reply cx q ip r) as (s', p).
+        inversion H; subst p2. exact (inv_core_eq _ _ C Iq).
+      + pose proof (challenge_ack_core cx q ip r) as C.
+        destruct (tcp_challenge_ack_reply cx q ip r) as (s', p).
+        inversion H; subst p2. exact (inv_core_eq _ _ C Iq). }
+  destruct (s_state s); try exact (Hmain H); inversion H; subst p2; apply core_eq_refl.
+Qed.
+
+(* ---------- the invariant without its two history-dependent clauses ---------- *)
+Record tcp_weak_inv (s : socket) : Prop := mkWeakInv {
+  wi_listen : s_state s = Listen -> s_tuple s = None;
+  wi_tuple : st_conn (s_state s) = true -> s_tuple s <> None;
+  wi_close : timer_is_close (s_timer s) = true -> s_state s = TimeWait \/ s_state s = Closed;
+  wi_una : u32 (s_local_seq_no s);
+  wi_nxt : u32 (s_remote_last_seq s);
+  wi_win : 0 <= s_remote_win_len s < 2 ^ 30;
+  wi_scale : match s_remote_win_scale s with Some x => 0 <= x <= 14 | None => True end;
+  wi_tx : rb_wf (s_tx_buffer s);
+  wi_cc : cc_ok (s_congestion_controller s);
+  wi_rtte : rtte_ok (s_rtte s)
+}.
+
+Lemma inv_weak : forall s, tcp_live_inv s -> tcp_weak_inv s.
+Proof. intros s I. inv_destruct I. constructor; assumption. Qed.
+
+Lemma weak_inv_full : forall s, tcp_weak_inv s ->
+  (st_nodata (s_state s) = true -> rb_len (s_tx_buffer s) = 0) -> live_K s -> tcp_live_inv s.
+Proof. intros s [] Hn HK. constructor; assumption. Qed.
+
+Ltac weak_destruct W := destruct W as [Wl Wt Wc Wu Wx Ww Ws Wb Wcc Wr].
+
+(* same fields, controller possibly different but still sane *)
+Definition core_sim (s s' : socket) : Prop :=
+  s_state s' = s_state s /\ s_timer s' = s_timer s /\ s_tuple s' = s_tuple s /\
+  s_tx_buffer s' = s_tx_buffer s /\ s_local_seq_no s' = s_local_seq_no s /\
+  s_remote_last_seq s' = s_remote_last_seq s /\ s_remote_win_len s' = s_remote_win_len s /\
+  s_remote_win_scale s' = s_remote_win_scale s /\
+  (cc_ok (s_congestion_controller s) -> cc_ok (s_congestion_controller s')) /\
+  s_rtte s' = s_rtte s.
+
+Lemma apply_mss_sim : forall s r,
+  core_sim s (tcp_apply_mss s r) /\
+  s_listen_endpoint (tcp_apply_mss s r) = s_listen_endpoint s /\
+  s_keep_alive (tcp_apply_mss s r) = s_keep_alive s.
+Proof.
+  intros. unfold tcp_apply_mss, core_sim. destruct (r_max_seg_size r) as [m|]; [|auto 15].
+  destruct (m =? 0); [auto 15|]. sproj. repeat split; try reflexivity.
+  apply cc_set_mss_ok. assert (0 < tcp_MIN_REMOTE_MSS) by reflexivity. lia.
+Qed.
+
+Lemma quash_spec : forall s r,
+  (tcp_process_quash s r = CRst <-> r_control r = CRst) /\
+  (tcp_process_quash s r = CSyn <-> r_control r = CSyn) /\
+  tcp_process_quash s r <> CPsh.
+Proof.
+  intros. unfold tcp_process_quash.
+  destruct (r_control r); cbn [quash_psh control_eqb andb];
+    try (repeat split; congruence).
+  destruct (seq_lt _ _ || seq_lt _ _); repeat split; congruence.
+Qed.
+
+Lemma ack_len_spec : forall s r al aof aall,
+  tcp_process_ack_len s r = Ok (al, aof, aall) ->
+  (aof = true -> al = rb_len (s_tx_buffer s)) /\
+  (aall = true -> exists a, r_ack_number r = Some a /\ seq_le (s_remote_last_seq s) a = true).
+Proof.
+  intros s r al aof aall H. unfold tcp_process_ack_len in H.
+  destruct (r_ack_number r) as [a|]; [|inversion H; subst; split; discriminate].
+  destruct (control_eqb (r_control r) CRst); [inversion H; subst; split; discriminate|].
+  destruct (seq_ge a _); [|inversion H; subst; split; discriminate].
+  obind_inv H.
+  destruct (tcp_sent_fin s && (rb_len (s_tx_buffer s) + 1 =? a0)) eqn:Hf;
+    inversion H; subst al aof aall; clear H.
+  - split; [intros _; apply andb_true_iff in Hf; lia|]. intros Ha. exists a. auto.
+  - split; [discriminate|]. intros Ha. exists a. auto.
+Qed.
+
+(* ---------- the transition table ---------- *)
+Definition trans_link (s s3 : socket) (c : control) (r : tcp_repr) : Prop :=
+  (s_state s = Listen /\ s_local_seq_no s3 = s_remote_last_seq s3 /\
+   timer_is_idle (s_timer s3) = true) \/
+  (s_state s = SynSent /\ c = CSyn /\ s_local_seq_no s3 = s_local_seq_no s /\
+   s_timer s3 = s_timer s /\
+   s_remote_last_seq s3 = (if is_some (r_ack_number r) then seq_add (s_local_seq_no s) 1
+                           else s_remote_last_seq s)) \/
+  (s_state s <> Listen /\ s_state s <> SynSent /\ s_local_seq_no s3 = s_local_seq_no s /\
+   s_remote_last_seq s3 = s_remote_last_seq s /\
+   (st_live (s_state s3) = true -> st_live (s_state s) = true /\ s_timer s3 = s_timer s)).
+
+Ltac close_contra :=
+  let X := fresh in intros X;
+  match goal with Hc : timer_is_close _ = true -> _ |- _ => destruct (Hc X); discriminate end.
+
+Ltac weak_close W Hst :=
+  weak_destruct W; constructor; sproj; rewrite ?Hst in *;
+  cbn [st_conn st_live st_nodata timer_is_close timer_set_for_close timer_set_for_idle] in *;
+  try discriminate; try assumption; auto; try close_contra.
+
+Lemma transition_ret : forall cx s ip r c al aof tg s' reply,
+  tcp_process_transition cx s ip r c al aof = Ok (Ret tg s' reply) ->
+  tcp_live_inv s -> tcp_live_inv s'.
+Proof.
+  intros cx s ip r c al aof tg s' reply H I. unfold tcp_process_transition in H.
+  destruct (s_state s) eqn:Hst; destruct c;
+    repeat match type of H with
+           | context [if ?b then _ else _] => destruct b eqn:?
+           end;
+    try discriminate; try (inversion H; subst s'; exact I);
+    try (inv_destruct I; inversion H; subst s'; constructor; unfold live_K in *; sproj;
+         rewrite ?Hst in *; cbn [st_conn st_live st_nodata] in *; try discriminate; auto;
+         match goal with Hc : timer_is_close _ = true -> _ |- timer_is_close _ = true -> _ =>
+           let X := fresh in intros X; destruct (Hc X); discriminate end).
+  (* LAST-ACK: challenge ACK *)
+  pose proof (challenge_ack_core cx s ip r) as C.
+  destruct (tcp_challenge_ack_reply cx s ip r) as (s1, p). inversion H; subst s'.
+  exact (inv_core_eq _ _ C I).
+Qed.
+
+Lemma seg_scale_ok : forall r, seg_ok r ->
+  match r_window_scale r with Some x => 0 <= x <= 14 | None => True end.
+Proof. intros r (_ & _ & H). exact H. Qed.
+
+Lemma transition_cont : forall cx s ip r c al aof tg s3,
+  tcp_process_transition cx s ip r c al aof = Ok (Cont tg s3) ->
+  tcp_weak_inv s -> ctx_ok cx -> seg_ok r ->
+  tcp_weak_inv s3 /\ s_tx_buffer s3 = s_tx_buffer s /\
+  (st_nodata (s_state s3) = true -> st_nodata (s_state s) = true \/ aof = true) /\
+  trans_link s s3 c r.
+Proof.
+  intros cx s ip r c al aof tg s3 H W Hcx Hseg. unfold tcp_process_transition in H.
+  pose proof (seg_scale_ok r Hseg) as Hsc.
+  destruct (s_state s) eqn:Hst; destruct c;
+    repeat match type of H with
+           | context [if negb (le_port _ =? 0) then _ else _] => destruct (negb (le_port (s_listen_endpoint s) =? 0))
+           | context [if aof then _ else _] => destruct aof
+           | context [if (al =? 0) && _ then _ else _] => destruct ((al =? 0) && rb_is_empty (s_tx_buffer s))
+           | (let '(_, _) := ?m in _) = _ => destruct m
+           end;
+    try discriminate.
+  (* Listen, SYN *)
+  { destruct (apply_mss_sim s r) as ((A1&A2&A3&A4&A5&A6&A7&A8&A9&A10) & A11 & A12).
+    revert H A1 A2 A3 A4 A5 A6 A7 A8 A9 A10 A11 A12. generalize (tcp_apply_mss s r).
+    intros q H A1 A2 A3 A4 A5 A6 A7 A8 A9 A10 A11 A12.
+    destruct (is_some (r_timestamp r));
+      destruct (is_some (s_remote_win_scale
+                   (upd_remote_win_scale (upd_remote_has_sack (upd_remote_last_win (upd_remote_last_ack
+                      (upd_remote_last_seq (upd_remote_seq_no (upd_local_seq_no (upd_tuple q
+                         (Some (mkTuple (ip_dst ip) (r_dst_port r) (ip_src ip) (r_src_port r))))
+                         (cx_isn cx)) (seq_add (r_seq_number r) 1))
+                         (s_local_seq_no (upd_remote_seq_no (upd_local_seq_no (upd_tuple q
+                         (Some (mkTuple (ip_dst ip) (r_dst_port r) (ip_src ip) (r_src_port r))))
+                         (cx_isn cx)) (seq_add (r_seq_number r) 1)))) None) 0) (r_sack_permitted r))
+                      (r_window_scale r))));
+      inversion H; subst s3; clear H;
+      (split; [weak_destruct W; constructor; sproj; cbn [st_conn timer_is_close timer_set_for_idle];
+               try discriminate; try congruence; auto|]);
+      (split; [sproj; congruence|]); (split; [sproj; rewrite ?Hst; cbn [st_nodata]; auto|]);
+      left; sproj; repeat split; auto. }
+  (* SynSent, SYN *)
+  { destruct (apply_mss_sim s r) as ((A1&A2&A3&A4&A5&A6&A7&A8&A9&A10) & A11 & A12).
+    revert H A1 A2 A3 A4 A5 A6 A7 A8 A9 A10 A11 A12. generalize (tcp_apply_mss s r).
+    intros q H A1 A2 A3 A4 A5 A6 A7 A8 A9 A10 A11 A12.
+    destruct (is_some (r_ack_number r)) eqn:Hack; destruct (is_some (r_timestamp r));
+      match type of H with context [if is_some (s_remote_win_scale ?x) then _ else _] =>
+        destruct (is_some (s_remote_win_scale x)) end;
+      inversion H; subst s3; clear H;
+      (split; [weak_destruct W; constructor; sproj; rewrite ?A1, ?A2, ?A3, ?A4, ?A5, ?A6, ?A7, ?A8, ?A10;
+               rewrite ?Hst in *; cbn [st_conn] in *;
+               try discriminate; try congruence; auto using seq_add_u32; try close_contra|]);
+      (split; [sproj; congruence|]); (split; [sproj; rewrite ?Hst; cbn [st_nodata]; auto|]);
+      right; left; sproj; rewrite ?A1, ?A2, ?A5, ?A6, ?Hack; repeat split; auto. }
+  (* the remaining arms change only state / timer / tuple / rx bookkeeping *)
+  all: unfold tcp_enter_time_wait, tcp_fin_received in H; inversion H; subst s3; clear H.
+  all: split; [weak_close W Hst|].
+  all: split; [sproj; reflexivity|].
+  all: split; [sproj; rewrite ?Hst; cbn [st_nodata]; auto; try discriminate|].
+  all: right; right; sproj; rewrite ?Hst; cbn [st_live];
+       (split; [discriminate|]); (split; [discriminate|]);
+       (split; [reflexivity|]); (split; [reflexivity|]);
+       try discriminate; auto.
+Qed.
